@@ -187,7 +187,11 @@ func (s *Service) ProcessRequest(ctx *core.Context, m map[string]interface{}, ou
 		return nil, fmt.Errorf("No uri.")
 	}
 
-	uri := DWIMURI(ctx, u.(string))
+	us, ok := u.(string)
+	if !ok {
+		return nil, fmt.Errorf("Bad uri %#v", u)
+	}
+	uri := DWIMURI(ctx, us)
 
 	switch uri {
 
